@@ -403,6 +403,10 @@ impl C05 {
                 Some(msg) => {
                     ctx.count("verdict/rejected");
                     ctx.count(&format!("reject-message/{}", msg.chars().take(60).collect::<String>()));
+                    if !msg.contains("recursion limit") {
+                        // every recipe is syntactically valid TOML: the only legitimate refusal is the limit
+                        ctx.violation("rejected-without-recursion-limit-error", format!("recipe {enc}: refused with `{msg}`, not with a recursion-limit error"));
+                    }
                     if let Some((what, n)) = single {
                         if n <= 79 {
                             ctx.violation(&format!("below-limit-rejected:{what}"), format!("recipe {enc}: a single {what} nested {n} deep is refused ({msg})"));
